@@ -17,8 +17,8 @@ ASSUME = ["diagrams are abstracted to their shape (number of inputs; arity in/ou
           "what the pictures look like (pixels, fonts) is not decided; 'renders' = Diagram.draw returns without "
           "exception for the TikZ and matplotlib (Agg) back-ends",
           "bounded: all shapes within the model constants (sampled for replay/rendering in the quick tier)"]
-CONST = {"quick": {"MaxBoxes": 3, "MaxWidth": 3, "MaxAr": 3, "replay": 2500, "render": 120},
-         "thorough": {"MaxBoxes": 4, "MaxWidth": 4, "MaxAr": 3, "replay": 120000, "render": 3000}}
+CONST = {"quick": {"MaxBoxes": 3, "MaxWidth": 3, "MaxAr": 3, "replay": 2500, "render": 120, "wide": (6, 5, 1500)},
+         "thorough": {"MaxBoxes": 4, "MaxWidth": 4, "MaxAr": 3, "replay": 120000, "render": 3000, "wide": (7, 6, 30000)}}
 KIND = {"input": "in", "output": "out", "box": "box", "dom": "dom", "cod": "cod"}
 
 
@@ -118,6 +118,12 @@ def run(tier, seed, t0):
         rnd = core.rng(seed, "C20")
         if len(shapes) > c["replay"]:
             shapes = rnd.sample(shapes, c["replay"])
+        # wide shapes (few boxes, many wires, large arity changes: the padding then shifts by more than one unit)
+        wide = core.run_model("MC_Layout", work, constants=dict(consts, MaxBoxes=2, MaxWidth=c["wide"][0], MaxAr=c["wide"][1]),
+                              dump=True, timeout=3000, tag="_wide")
+        wshapes = [(st["dm"], st["bs"]) for st in tlaval.read_dump(wide["dump"]) if len(st["bs"]) == 2]
+        os.remove(wide["dump"])
+        shapes += rnd.sample(wshapes, min(len(wshapes), c["wide"][2]))
         procs = 16
         chunks = [(shapes[k::procs], K, os.path.join(work, "obs-%d.ndjson" % k), c["render"] // procs + 1)
                   for k in range(procs)]
@@ -160,7 +166,7 @@ def run(tier, seed, t0):
                "exhaustive": len(shapes) == n_all,
                "model": dict(consts, module="MC_Layout", wall_s=model["wall_s"],
                              invariants=["InvNodes", "InvOrder", "InvVertical", "InvDown", "InvBoxBetween"]),
-               "replay": {"shapes_in_model": n_all, "layouts_replayed": len(rows),
+               "replay": {"shapes_in_model": n_all, "wide_shapes_in_model": len(wshapes), "layouts_replayed": len(rows),
                           "rendered_tikz": sum(1 for t in rows if t["tikz"] != "-"),
                           "rendered_matplotlib": sum(1 for t in rows if t["mat"] != "-"),
                           "diagramize": dict(Counter(t["dz"] or "equal" for t in rows))},
